@@ -118,6 +118,12 @@ def gen_rw(rng, tier):
 
 
 def shrink_candidates(plan):
+    if plan.get("xproc"):
+        # first try without the repetition in another interpreter (a violation that does not need
+        # it shrinks much faster without one more process per candidate)
+        p = copy.deepcopy(plan)
+        p["xproc"] = None
+        yield p
     if plan["sub"] == "probe":
         for p in W.shrink_candidates_E(plan):
             yield p
